@@ -25,13 +25,13 @@
 //     of the neighbouring pairs (s±1,t±1) of H and of the same pair in every other world; proof ids; nil parts;
 //   - every PAIR {header/id field} x {proof part} over reduced alphabets (donors: H neighbours, forks F(s-1), F(s));
 //   - whole responses of every world, in sessions of up to two advancing verifications + one re-read of an old tx.
-//   Oracle (judge): an accepted header must commit, at every position <= the trusted id, to what the trusted state
-//   commits to (positions <= BlTxID through BlRoot, the rest through the chain); backward: it must be the transaction
-//   the trusted state commits to. A fork strictly after the trusted transaction is legitimate: counted, never flagged.
-//   End-to-end oracle of the sessions: no two different transactions are ever accepted for one id.
-//   raw.go: DualProofV2 in the flow of its only caller (VerifyDocument), VerifyLinearProof, VerifyLinearAdvanceProof,
-//   VerifyInclusion (entry), ahtree.Verify{Inclusion,Consistency,LastInclusion}: altered proofs AND altered claims
-//   against ground truth over all worlds / the reference verifiers of package merkle.
+//     Oracle (judge): an accepted header must commit, at every position <= the trusted id, to what the trusted state
+//     commits to (positions <= BlTxID through BlRoot, the rest through the chain); backward: it must be the transaction
+//     the trusted state commits to. A fork strictly after the trusted transaction is legitimate: counted, never flagged.
+//     End-to-end oracle of the sessions: no two different transactions are ever accepted for one id.
+//     raw.go: DualProofV2 in the flow of its only caller (VerifyDocument), VerifyLinearProof, VerifyLinearAdvanceProof,
+//     VerifyInclusion (entry), ahtree.Verify{Inclusion,Consistency,LastInclusion}: altered proofs AND altered claims
+//     against ground truth over all worlds / the reference verifiers of package merkle.
 //
 // SERVER/CLIENT LAYER (client.go), histories of 4..5 transactions (+ the ones the verified writes append): the REAL
 // pkg/client code (VerifiedGet, VerifiedGetAt, VerifiedTxByID, VerifiedSet, VerifiedZAdd, VerifiedSetReference,
